@@ -233,13 +233,13 @@ def _tool_if_crcmodel(mm):
 def sel_c05(mm):
     _tool_if_crcmodel(mm)
     t = set(mm.get("tags", []))
-    return mm["stage"] == "ser" and bool(t & {"thr", "canary", "size", "panic", "crash"} or ("bytes" in t and _want(mm).get("sig") == "plain"))
+    return mm["stage"] == "ser" and bool(t & {"thr", "canary", "size", "panic", "crash", "cobs_ops"} or ("bytes" in t and _want(mm).get("sig") == "plain"))
 
 
 def sel_c06(mm):
     t = set(mm.get("tags", []))
     if mm["stage"] == "ser":
-        return _want(mm).get("sig") == "cobs" and bool(t & {"bytes", "thr", "panic"})
+        return _want(mm).get("sig") == "cobs" and bool(t & {"bytes", "thr", "panic", "cobs_ops"})
     return mm["stage"] == "cobs-de" and _want(mm).get("fam") == "seq"
 
 
@@ -258,7 +258,7 @@ def sel_c10(mm):
 def sel_c20(mm):
     _tool_if_crcmodel(mm)
     t = set(mm.get("tags", []))
-    return mm["stage"] == "ser" and (bool(t & {"user"}) or (_want(mm).get("sig") in ("crc+cobs", "cobs", "crc") and bool(t & {"bytes", "thr", "panic"})))
+    return mm["stage"] == "ser" and (bool(t & {"user"}) or (_want(mm).get("sig") in ("crc+cobs", "cobs", "crc") and bool(t & {"bytes", "thr", "panic", "cobs_ops"})))
 
 
 def run_c05(ctx):
